@@ -179,6 +179,19 @@ func (r *qRun) verdict(gl *qLoader, pending []string) (class, detail string) {
 	return "", ""
 }
 
+// queueStuck resolves whatever is pending on the calling goroutine and then looks at the queue: after a resolve with no
+// other goroutine around it must be empty.  If it is not (the queue is never emptied), every later resolve would bind and
+// resolve everything again — reported at once, and nothing more is declared by this line (the queue of the process would
+// only grow).
+func queueStuck(c px.Context) (core.Result, bool) {
+	px.ResolveResolvables(c)
+	if n := len(types.PopDeclaredTypes()); n > 0 {
+		return core.Result{Out: "queue-not-emptied", NonTrivial: true,
+			Pred: fmt.Sprintf("FAIL queue-item-twice %d declared types are still pending right after ResolveResolvables on the only running goroutine: the list of declared types is handed out without being emptied, every resolve binds and resolves them again", n)}, true
+	}
+	return core.Result{}, false
+}
+
 func execDeclq(c px.Context, args []sx.Sexp) core.Result {
 	bad := core.Result{Out: "bad-op", Pred: "n/a"}
 	if len(args) != 3 || args[0].Tag() != "pend" || len(args[0].Args()) != 1 || args[1].Tag() != "threads" || args[2].Tag() != "sched" {
@@ -215,7 +228,9 @@ func execDeclq(c px.Context, args []sx.Sexp) core.Result {
 	}
 
 	// whatever other code declared is resolved where it belongs before this run starts
-	px.ResolveResolvables(c)
+	if r, stuck := queueStuck(c); stuck {
+		return r
+	}
 	run, gl := newQRun()
 	defer types.PopDeclaredTypes() // never leave items of this run to the next line
 	for i := int64(0); i < pend; i++ {
@@ -316,7 +331,9 @@ func execDeclStress(c px.Context, args []sx.Sexp) core.Result {
 		return core.Result{Out: "bad-op", Pred: "n/a"}
 	}
 	res := core.Result{Out: "ok", Pred: "ok", NonTrivial: true, Tags: []string{"free-running"}}
-	px.ResolveResolvables(c)
+	if r, stuck := queueStuck(c); stuck {
+		return r
+	}
 	defer types.PopDeclaredTypes()
 	for r := int64(0); r < rounds; r++ {
 		run, gl := newQRun()
